@@ -93,6 +93,10 @@ pub mod schemes;
 /// Utils module
 pub mod utils;
 
+#[cfg(zkryptium_verif)]
+#[doc(hidden)]
+pub mod verif_hooks;
+
 #[cfg(feature = "bbsplus")]
 /// BBS+ signature scheme module
 pub mod bbsplus;
